@@ -133,6 +133,15 @@ def _check(case):
         tau, theta = float(m.tau), float(m.theta)
         if abs(tau - exp_tau) > 1e-12:
             probs.append((fam, 'tau-is-not-kendall-tau-b', 'got %r expected %r' % (tau, exp_tau)))
+        # Kendall's tau only looks at the order of the values: the same ranks squeezed into an interval of width 1e-7 around 0.5
+        # (neighbouring values ~1e-9 apart) have the same tau-b and so the same theta
+        m2 = cls[fam]()
+        try:
+            m2.fit(0.5 + (X - 0.5) * 1e-7)
+            if abs(float(m2.tau) - exp_tau) > 1e-12 or not (float(m2.theta) == theta or abs(float(m2.theta) - theta) <= 1e-9 * max(1.0, abs(theta))):
+                probs.append((fam, 'tau-depends-on-more-than-the-order-of-the-values', 'squeezed columns: tau %r theta %r instead of %r / %r' % (float(m2.tau), float(m2.theta), exp_tau, theta)))
+        except Exception as ex:
+            probs.append((fam, 'tau-depends-on-more-than-the-order-of-the-values', 'squeezed columns raised %s' % type(ex).__name__))
         if fam == 'CLAYTON':
             et = math.inf if abs(exp_tau - 1.0) < 1e-15 else 2.0 * exp_tau / (1.0 - exp_tau)
         elif fam == 'GUMBEL':
